@@ -319,6 +319,8 @@ pub struct Outcome {
     pub open: usize,
     pub nest_error: Option<(String, u64)>,
     pub aborted: bool,
+    /// the paint call did not return within the wall-clock deadline
+    pub timed_out: bool,
     pub pushes: u64,
     pub digest: u64,
     pub log: String,
@@ -346,71 +348,175 @@ pub enum Want {
     V1,
 }
 
+// ---- the paint worker
+//
+// `ColorGlyph::paint` runs on a persistent worker thread; the calling thread
+// waits with a wall-clock deadline. A traversal that does not come back (the
+// fill-glyph optimisation pass issues no callbacks, so the painter's own
+// budget cannot stop it) is reported as a violation at once and the shard
+// stops: the property *is* termination, so the check must not rely on the
+// driver's hang handling to decide it.
+
+struct Job {
+    /// shared ownership: a worker that never comes back keeps its input alive
+    font: std::sync::Arc<Vec<u8>>,
+    gid: u32,
+    coords: Vec<i16>,
+    policy: Policy,
+    want: Want,
+}
+
+struct Reply {
+    res: Result<Option<(bool, Result<(), PaintError>)>, vf_core::PanicInfo>,
+    visits: u64,
+    depth: usize,
+    mon: Mon,
+}
+
+struct Worker {
+    tx: std::sync::mpsc::Sender<Job>,
+    rx: std::sync::mpsc::Receiver<Reply>,
+}
+
+thread_local! {
+    static WORKER: RefCell<Option<Worker>> = const { RefCell::new(None) };
+}
+/// Set once a paint call missed its deadline: the rest of the workload is skipped.
+pub static STUCK: std::sync::atomic::AtomicBool = std::sync::atomic::AtomicBool::new(false);
+
+fn stuck() -> bool {
+    STUCK.load(std::sync::atomic::Ordering::Relaxed)
+}
+
+fn paint_deadline() -> std::time::Duration {
+    let s = std::env::var("C13_PAINT_WALL_LIMIT_S").ok().and_then(|s| s.parse().ok()).unwrap_or(25u64);
+    std::time::Duration::from_secs(s)
+}
+
+fn worker_main(rx: std::sync::mpsc::Receiver<Job>, tx: std::sync::mpsc::Sender<Reply>) {
+    while let Ok(job) = rx.recv() {
+        let font: &[u8] = &job.font[..];
+        let mon = RefCell::new(Mon::new(job.policy));
+        let ncoords: Vec<skrifa::instance::NormalizedCoord> = job.coords.iter().map(|c| skrifa::instance::NormalizedCoord::from_bits(*c)).collect();
+        let _ = skrifa::color::verif_traversal_hooks::take_visits();
+        let res = vf_core::guard(|| -> Option<(bool, Result<(), PaintError>)> {
+            let fr = FontRef::new(font).ok()?;
+            let coll = fr.color_glyphs();
+            let g = GlyphId::new(job.gid);
+            let glyph = match job.want {
+                Want::Any => coll.get(g),
+                Want::V0 => coll.get_with_format(g, ColorGlyphFormat::ColrV0),
+                Want::V1 => coll.get_with_format(g, ColorGlyphFormat::ColrV1),
+            }?;
+            let v1 = matches!(glyph.format(), ColorGlyphFormat::ColrV1);
+            let mut m = mon.borrow_mut();
+            let r = glyph.paint(skrifa::instance::LocationRef::new(&ncoords), &mut *m);
+            Some((v1, r))
+        });
+        // (after a panic the counters of the interrupted traversal are still in the hook's thread-locals)
+        let (visits, depth) = skrifa::color::verif_traversal_hooks::take_visits();
+        if tx.send(Reply { res, visits, depth, mon: mon.into_inner() }).is_err() {
+            return;
+        }
+    }
+}
+
+fn with_worker<R>(f: impl FnOnce(&Worker) -> R) -> R {
+    WORKER.with(|w| {
+        let mut w = w.borrow_mut();
+        if w.is_none() {
+            let (jtx, jrx) = std::sync::mpsc::channel::<Job>();
+            let (rtx, rrx) = std::sync::mpsc::channel::<Reply>();
+            std::thread::Builder::new().name("c13-paint".into()).stack_size(16 << 20).spawn(move || worker_main(jrx, rtx)).expect("spawn paint worker");
+            *w = Some(Worker { tx: jtx, rx: rrx });
+        }
+        f(w.as_ref().unwrap())
+    })
+}
+
 /// Paint one glyph under the monitors. Returns None when a panic was caught
 /// and judged (or a harness problem was noted).
-pub fn paint_one(ctx: &mut Ctx, font: &[u8], gid: u32, coords: &[i16], policy: Policy, want: Want, what: &str) -> Option<Outcome> {
-    let mon = RefCell::new(Mon::new(policy));
+pub fn paint_one(ctx: &mut Ctx, font: &std::sync::Arc<Vec<u8>>, gid: u32, coords: &[i16], policy: Policy, want: Want, what: &str) -> Option<Outcome> {
+    if stuck() {
+        return None;
+    }
     let label = || format!("{} gid={} coords={:?} policy={}", what, gid, coords, policy.code());
-    let ncoords: Vec<skrifa::instance::NormalizedCoord> = coords.iter().map(|c| skrifa::instance::NormalizedCoord::from_bits(*c)).collect();
-    let run = || -> Option<(bool, Result<(), PaintError>, u64, usize)> {
-        *mon.borrow_mut() = Mon::new(policy);
-        let fr = FontRef::new(font).ok()?;
-        let coll = fr.color_glyphs();
-        let g = GlyphId::new(gid);
-        let glyph = match want {
-            Want::Any => coll.get(g),
-            Want::V0 => coll.get_with_format(g, ColorGlyphFormat::ColrV0),
-            Want::V1 => coll.get_with_format(g, ColorGlyphFormat::ColrV1),
-        }?;
-        let v1 = matches!(glyph.format(), ColorGlyphFormat::ColrV1);
-        let _ = skrifa::color::verif_traversal_hooks::take_visits();
-        let r = {
-            let mut m = mon.borrow_mut();
-            glyph.paint(skrifa::instance::LocationRef::new(&ncoords), &mut *m)
-        };
-        let (v, d) = skrifa::color::verif_traversal_hooks::take_visits();
-        Some((v1, r, v, d))
+    let deadline = paint_deadline();
+    let run = || -> Option<Reply> {
+        with_worker(|w| {
+            w.tx.send(Job { font: font.clone(), gid, coords: coords.to_vec(), policy, want }).ok()?;
+            w.rx.recv_timeout(deadline).ok()
+        })
     };
-    let res = ctx.run_case(&label, Some(font), &run);
-    let m = mon.into_inner();
-    let mk = |present: bool, v1: bool, ok: bool, err: String, visits: u64, max_depth: usize, aborted: bool| Outcome {
+    let reply = match ctx.run_case(&label, Some(&font[..]), &run) {
+        Ok(r) => r,
+        Err(p) => {
+            ctx.inconclusive(format!("harness panic around the paint worker {}:{} {}", p.file, p.line, p.msg));
+            return None;
+        }
+    };
+    let Some(reply) = reply else {
+        // deadline missed: the worker is still inside ColorGlyph::paint
+        STUCK.store(true, std::sync::atomic::Ordering::Relaxed);
+        let m = Mon::new(policy);
+        return Some(Outcome {
+            present: true,
+            v1: true,
+            ok: false,
+            err: "no-result-within-deadline".into(),
+            visits: 0,
+            max_depth: 0,
+            callbacks: 0,
+            open: 0,
+            nest_error: None,
+            aborted: false,
+            timed_out: true,
+            pushes: 0,
+            digest: 0,
+            log: m.log_string(),
+            ev: [0; 11],
+            mode_mismatch: 0,
+        });
+    };
+    let m = reply.mon;
+    let (visits, depth) = (reply.visits, reply.depth);
+    let mk = |present: bool, v1: bool, ok: bool, err: String, aborted: bool| Outcome {
         present,
         v1,
         ok,
         err,
         visits,
-        max_depth,
+        max_depth: depth,
         callbacks: m.callbacks,
         open: m.stack.len(),
         nest_error: m.nest_error.clone(),
         aborted,
+        timed_out: false,
         pushes: m.ev[0] + m.ev[2] + m.ev[3] + m.ev[8],
         digest: m.digest.finish(),
         log: m.log_string(),
         ev: m.ev,
         mode_mismatch: m.mode_mismatch,
     };
-    match res {
-        Ok(None) => Some(mk(false, false, false, String::new(), 0, 0, false)),
-        Ok(Some((v1, r, visits, depth))) => {
+    match reply.res {
+        Ok(None) => Some(mk(false, false, false, String::new(), false)),
+        Ok(Some((v1, r))) => {
             let (ok, err) = match &r {
                 Ok(()) => (true, String::new()),
                 Err(e) => (false, err_kind(e)),
             };
-            Some(mk(true, v1, ok, err, visits, depth, false))
+            Some(mk(true, v1, ok, err, false))
         }
         Err(p) => {
-            // the counters of the interrupted traversal are still in the hook's thread-locals
-            let (visits, depth) = skrifa::color::verif_traversal_hooks::take_visits();
             if p.class == vf_core::PanicClass::Harness {
                 // our own budget abort
-                Some(mk(true, true, false, "aborted-by-painter".into(), visits, depth, true))
+                Some(mk(true, true, false, "aborted-by-painter".into(), true))
             } else {
                 ctx.judge_panic(
                     &p,
                     "ColorGlyph::paint",
                     json!({"what": what, "gid": gid, "coords": coords, "policy": policy.to_json(), "font_hash": format!("{:016x}", fnv64(font))}),
-                    Some(font),
+                    Some(&font[..]),
                 );
                 None
             }
@@ -477,6 +583,16 @@ pub fn judge(ctx: &mut Ctx, o: &Outcome, font: &[u8], gid: u32, coords: &[i16], 
                "font_len": font.len(), "font_hash": format!("{:016x}", fnv64(font)), "info": extra})
     };
     let fam = if exp.family.is_empty() { format!("{}:gid={}", what, gid) } else { exp.family.clone() };
+    if o.timed_out {
+        ctx.count("paint_calls_without_result_within_deadline", 1);
+        ctx.violation(
+            &format!("no-termination-within-deadline:{}", exp.budget_family.as_ref().unwrap_or(&fam)),
+            json!({"what": what, "gid": gid, "coords": coords, "policy": policy.to_json(), "deadline_s": paint_deadline().as_secs(), "font_len": font.len(),
+                   "font_hash": format!("{:016x}", fnv64(font)), "note": "the worker thread was still inside ColorGlyph::paint; the rest of this shard's workload was skipped"}),
+            Some(font),
+        );
+        return;
+    }
     // ---- termination / boundedness
     if o.aborted || o.visits > VISIT_BUDGET {
         ctx.count("over_budget", 1);
@@ -528,7 +644,7 @@ pub fn judge(ctx: &mut Ctx, o: &Outcome, font: &[u8], gid: u32, coords: &[i16], 
 // ------------------------------------------------------------------ workloads
 
 fn run_model_case(ctx: &mut Ctx, family: &str, idx: u64, m: &Model, rng: &mut Rng, keyed_family: Option<&str>) {
-    let Some(font) = m.to_font(rng) else {
+    let Some(font) = m.to_font(rng).map(std::sync::Arc::new) else {
         ctx.count("model_not_serialisable", 1);
         return;
     };
@@ -607,7 +723,7 @@ fn run_model_case(ctx: &mut Ctx, family: &str, idx: u64, m: &Model, rng: &mut Rn
     }
     // raw byte patches of the generated table: generic oracles only
     if rng.chance(1, 3) {
-        let mut b = font.clone();
+        let mut b: Vec<u8> = font.to_vec();
         let dir = vf_core::gen::parse_dir(&b, 0);
         if let Some(rec) = dir.iter().find(|r| &r.tag == b"COLR") {
             let r = rec.range(b.len());
@@ -623,6 +739,7 @@ fn run_model_case(ctx: &mut Ctx, family: &str, idx: u64, m: &Model, rng: &mut Rn
                     };
                 }
                 ctx.count("raw_patched_generated_tables", 1);
+                let b = std::sync::Arc::new(b);
                 let what = format!("{}:patched", what);
                 for gid in m.glyph_ids_to_try() {
                     let policy = policies[(gid as usize) % policies.len()];
@@ -652,7 +769,7 @@ fn fanout_families(ctx: &mut Ctx) {
         let mut curve = vec![];
         for n in sizes {
             let m = build(n);
-            let Some(font) = m.to_font(&mut rng) else { continue };
+            let Some(font) = m.to_font(&mut rng).map(std::sync::Arc::new) else { continue };
             let table_len = vf_core::gen::parse_dir(&font, 0).iter().find(|r| &r.tag == b"COLR").map(|r| r.len).unwrap_or(0);
             let policy = Policy::all(0)[0];
             let what = format!("gen:{}:n={}", key, n);
@@ -669,7 +786,7 @@ fn fanout_families(ctx: &mut Ctx) {
                 continue;
             }
             let m = build(n);
-            let Some(font) = m.to_font(&mut rng) else { continue };
+            let Some(font) = m.to_font(&mut rng).map(std::sync::Arc::new) else { continue };
             let policy = Policy::all(0)[0];
             let what = format!("gen:{}:n={}", key, n);
             if let Some(o) = paint_one(ctx, &font, 0, &[], policy, Want::V1, &what) {
@@ -703,6 +820,9 @@ fn corpus_pass(ctx: &mut Ctx, fonts: &[vf_core::CorpusFont], item0: &mut usize) 
         let axes = axis_count(&f.data);
         ctx.label("corpus_colr_fonts", &f.name);
         for gid in 0..n + 2 {
+            if stuck() {
+                return;
+            }
             let it = *item0;
             *item0 += 1;
             if !ctx.mine(it) {
@@ -759,6 +879,9 @@ fn mutant_pass(ctx: &mut Ctx, fonts: &[vf_core::CorpusFont], item0: &mut usize, 
         }
         let mut buf: Vec<u8> = f.data.to_vec();
         for k in 0..per_font {
+            if stuck() {
+                return;
+            }
             let it = *item0;
             *item0 += 1;
             if !ctx.mine(it) {
@@ -803,14 +926,15 @@ fn mutant_pass(ctx: &mut Ctx, fonts: &[vf_core::CorpusFont], item0: &mut usize, 
                 ctx.count(&format!("mutation:{}", kd), 1);
             }
             let what = format!("mutant:{}:{}", f.name, patcher.describe());
+            let mutant = std::sync::Arc::new(buf.clone());
             let tries = ctx.tier.pick(6, 12).min(colour_gids.len());
             for t in 0..tries {
                 let gid = if t < 2 { colour_gids[rng.usize(colour_gids.len())] } else { *rng.pick(&colour_gids) };
                 let coords: Vec<i16> = if t % 2 == 0 { vec![] } else { (0..axes).map(|_| rng.range(-16384, 16384) as i16).collect() };
                 let policy = Policy::all(rng.u64())[t % 5];
-                if let Some(o) = paint_one(ctx, &buf, gid, &coords, policy, Want::Any, &what) {
+                if let Some(o) = paint_one(ctx, &mutant, gid, &coords, policy, Want::Any, &what) {
                     let exp = Expect { family: format!("{}:gid={}", what, gid), budget_family: Some(format!("mutant:{}", f.name)), ..Default::default() };
-                    judge(ctx, &o, &buf, gid, &coords, policy, &what, &exp);
+                    judge(ctx, &o, &mutant, gid, &coords, policy, &what, &exp);
                 }
             }
             patcher.undo(&mut buf);
@@ -839,6 +963,9 @@ pub fn run(ctx: &mut Ctx, _args: &Args) {
     // ---- 2. generated graphs
     let n_random = ctx.tier.pick(160_000usize, 2_400_000);
     for i in 0..n_random {
+        if stuck() {
+            break;
+        }
         let it = item;
         item += 1;
         if !ctx.mine(it) {
@@ -856,6 +983,9 @@ pub fn run(ctx: &mut Ctx, _args: &Args) {
     for kind in CHAIN_KINDS {
         for len in 1..=70usize {
             for closing in 0..4usize {
+                if stuck() {
+                    break;
+                }
                 let it = item;
                 item += 1;
                 if !ctx.mine(it) {
@@ -888,6 +1018,7 @@ fn replay(ctx: &mut Ctx, _args: &Args, rec: &Value, input: Option<&[u8]>) {
     let coords: Vec<i16> = d["coords"].as_array().map(|a| a.iter().map(|v| v.as_i64().unwrap_or(0) as i16).collect()).unwrap_or_default();
     let policy = Policy::from_json(&d["policy"]);
     let what = d["what"].as_str().unwrap_or("replay").to_string();
+    let font = &std::sync::Arc::new(font.to_vec());
     if let Some(o) = paint_one(ctx, font, gid, &coords, policy, Want::Any, &what) {
         eprintln!("replay outcome: {:?}", o);
         // keep the recorded family so that the signature is reproduced
